@@ -219,6 +219,11 @@ def check_props_file(relpath, timeout=3000):
         errs = [d for (l, d) in errors if s <= l <= e]
         sor = any(s <= l <= e for l in sorry)
         ax = axioms.get(name)
+        if ax is None:
+            for k, v in axioms.items():
+                if k.endswith('.' + name):
+                    ax = v
+                    break
         ok = not errs and not sor
         bad_ax = [a for a in (ax or []) if a not in ALLOWED_AXIOMS]
         theorems[name] = {'ok': ok and not bad_ax, 'errors': errs[:2], 'sorry': sor, 'axioms': ax, 'bad_axioms': bad_ax,
